@@ -400,7 +400,7 @@ class CaseBuilder:
 def gen_cases(rng, tier):
     cb = CaseBuilder(rng)
     cases = []
-    n_rand = 50 if tier == 'quick' else 400
+    n_rand = 42 if tier == 'quick' else 400
     plan = []
     # fixed seed corpus: every delay-attaching method meets a delay, the documented reproducers
     for dom in ('s', 's', 'omega', 'f', 'z'):
@@ -540,7 +540,7 @@ def oracle_case(c, r):
                 bad.append((key, 0, 'reported root is not a root with that multiplicity'))
         if key in ('poles_pairs', 'zeros_pairs', 'N_roots_pairs', 'D_roots_pairs'):
             # reported multiplicities (pairs count for both members) against the true ones
-            poly = A if key in ('poles_pairs', 'D_roots_pairs') else B
+            poly = [G.des(x) for x in m['poly']] if 'poly' in m else (A if key == 'poles_pairs' else B)
             for pl_, sl_, tag in ((m['pairs'], m['singles'], 'dict'), ([p_ + [1] for p_ in m['pairs_list']], [[p_, 1] for p_ in m['singles_list']], 'list')):
                 cnt = {}
                 for a_, b_, n_ in pl_:
@@ -866,9 +866,13 @@ def case_defs(c, r, pre, avail=None):
                     checks.append((key, k, 'veq (fmt_ZPK_cc E3 (att_ZPK_cc QcIF) %szp %szs1 %spp %sps1 %s %s %s %su%d %sx%d) %s' % (
                         pre, pre, pre, pre, B, A, d, pre, k, pre, k, qi(M[key]['vals'][k]))))
     for key, src in (('poles_pairs', 'poles'), ('zeros_pairs', 'zeros'), ('N_roots_pairs', 'zeros'), ('D_roots_pairs', 'poles')):
-        if ok(key) and ok(src):
+        if ok(key) and (ok(src) or 'roots' in M[key]):
             m_ = M[key]
-            orig_l = rlist(M[src]['roots'])
+            if 'roots' in m_:
+                orig_l = rlist(m_['roots'])
+                checks.append((key, 2, 'chk_roots %s %s' % (plist(m_['poly']), orig_l)))
+            else:
+                orig_l = rlist(M[src]['roots'])
             checks.append((key, 0, 'pairing_ok (K:=QcIF) %s %s %s' % (orig_l, pairlist(m_['pairs']), rlist(m_['singles']))))
             # list form: every entry once
             checks.append((key, 1, 'pairing_ok (K:=QcIF) %s %s %s' % (orig_l, pairlist([p_ + [1] for p_ in m_['pairs_list']]),
